@@ -229,3 +229,42 @@ func pick(seed uint64, line int, every int) bool {
 	h ^= h >> 29
 	return h%uint64(every) == 0
 }
+
+// allGoroutineStates parses one all-goroutine stack dump.
+func allGoroutineStates() map[uint64]gstate {
+	stackMu.Lock()
+	defer stackMu.Unlock()
+	var n int
+	for {
+		n = runtime.Stack(stackBuf, true)
+		if n < len(stackBuf) {
+			break
+		}
+		stackBuf = make([]byte, 2*len(stackBuf))
+	}
+	out := map[uint64]gstate{}
+	for _, block := range bytes.Split(stackBuf[:n], []byte("\n\n")) {
+		if !bytes.HasPrefix(block, []byte("goroutine ")) {
+			continue
+		}
+		rest := block[len("goroutine "):]
+		sp := bytes.IndexByte(rest, ' ')
+		if sp < 0 {
+			continue
+		}
+		id, err := strconv.ParseUint(string(rest[:sp]), 10, 64)
+		if err != nil {
+			continue
+		}
+		lb, rb := bytes.IndexByte(rest, '['), bytes.IndexByte(rest, ']')
+		if lb < 0 || rb < lb {
+			continue
+		}
+		st := rest[lb+1 : rb]
+		if c := bytes.IndexByte(st, ','); c >= 0 {
+			st = st[:c]
+		}
+		out[id] = gstate{found: true, state: string(st), inLib: bytes.Contains(block, libFrame), atGate: bytes.Contains(block, gateFrame)}
+	}
+	return out
+}
